@@ -124,6 +124,9 @@ def rand_string(rng, kind=None):
         return rng.choice(["https://example.org/a", "https://example.org/a b", "/relative/path", "//host/p", "https://[::1]:8/x",
                            "https://user:pw@h.example/p?q=1#f", "http://h/%zz", "https://h/%41", "mailto:a@b", ":", "https://h:port/",
                            "https://exa\tmple.org/", "ht tp://x", "https://h/\x7f", "a:b:c", "%gh", "https://é.example/ü"])
+    if kind == "mime" and rng.random() < 0.3:
+        c = chr(rng.randrange(0x20, 0x7f))
+        return rng.choice([c + "text/plain", "text/" + c + "plain", "te" + c + "xt/pl" + c + "ain", "image/" + c + "object Object" + c])
     if kind == "mime":
         return rng.choice(["text/html", "text/plain", "text/gemini", "text/markdown", "text/html; charset=utf-8", "TEXT/HTML",
                            "text/", "/html", "text", "text/x-foo+bar", "image/png", "a/b/c", " text/html", "text/html\n", "*/*",
